@@ -1332,6 +1332,7 @@ func (p *pipe) DoStream(ctx context.Context, pool *pool, cmd Completed) RedisRes
 	cmds.CompletedCS(cmd).Verify()
 
 	if err := ctx.Err(); err != nil {
+		pool.Store(p) // the wire was taken from the pool by the caller: hand it back, or the pool loses a slot for ever
 		return NewErrorResultStream(err)
 	}
 	state := atomic.LoadInt32(&p.state)
@@ -1381,6 +1382,7 @@ func (p *pipe) DoMultiStream(ctx context.Context, pool *pool, multi ...Completed
 	}
 
 	if err := ctx.Err(); err != nil {
+		pool.Store(p) // see DoStream
 		return NewErrorResultStream(err)
 	}
 	state := atomic.LoadInt32(&p.state)
